@@ -60,6 +60,17 @@ CLAIMS = {
             "Bounded lengths/depths.",
             "explicit-state exploration of the real code (all operation sequences up to a depth vs. reference model)",
             "h_runtime/c15"),
+    "C19": ("model_checking",
+            "Sequential half: a scripted future/stream/sink behind trait_obj! is polled with a counting caller-side waker; every history up "
+            "to the depth bound over {clone/wake_by_ref of cx.waker(), clone/wake/wake_by_ref/drop of any live foreign-side waker} x {inside a new "
+            "poll, inside the same poll, after the poll, after the poll on another OS thread} is executed on the real code; after every step "
+            "the caller's wake count must equal the wake operations and its refcount must never go below the start value and return to it when "
+            "no foreign waker is left. Concurrent half: loom explores all interleavings of 2-3 threads operating on foreign wakers over the real "
+            "task/mod.rs compiled against a loom-backed tarc::BaseArc.",
+            "DESIGN.md §4 C19",
+            "Thread hand-off at operation granularity in the history half; loom's model + the tarc shim in the concurrent half; bounded depth.",
+            "explicit-state exploration of the real code + loom (DPOR over all interleavings within a preemption bound)",
+            "h_task + h_loom_task"),
     "C16": ("exploration",
             "Matrix runtime type x element layout x direction: values made by the Rust API are operated only through #[repr(C)] mirror structs "
             "transcribed from the published header (release, clone, read, grow, append, invoke, advance), and values assembled field by field "
@@ -117,6 +128,8 @@ def main():
             {"name": "explore", "path": "/verif/engine/explore", "serves_properties": sorted(CLAIMS), "kind_free_text": "history explorer over the real code (full enumeration + canonical-state BFS), crash-isolating driver, replay"},
             {"name": "instr", "path": "/verif/engine/instr", "serves_properties": sorted(CLAIMS), "kind_free_text": "tracking global allocator (layout, double free, red zones, leaks), drop-counting payloads"},
             {"name": "h_runtime", "path": "/verif/engine/h_runtime", "serves_properties": [c for c in sorted(CLAIMS) if CLAIMS[c][5].startswith("h_runtime")], "kind_free_text": "harness binaries for the runtime wrapper types"},
+            {"name": "h_task", "path": "/verif/engine/h_task", "serves_properties": ["C19"], "kind_free_text": "history explorer over wakers crossing a cglue Future/Stream/Sink object"},
+            {"name": "h_loom_task", "path": "/verif/engine/h_loom_task", "serves_properties": ["C19"], "kind_free_text": "loom model of the real cglue/src/task/mod.rs over a loom-backed tarc shim (engine/tarc_shim)"},
             {"name": "h_loom_arc", "path": "/verif/engine/h_loom_arc", "serves_properties": ["C10"], "kind_free_text": "loom model of the real cglue/src/arc.rs (hook h33p_cglue_verif swaps std Arc for loom Arc)"},
         ],
         "checks": checks,
